@@ -6,6 +6,7 @@ import (
 
 	"github.com/IrineSistiana/mosproxy/internal/verifrt"
 	"github.com/puzpuzpuz/xsync/v3"
+	"golang.org/x/time/rate"
 )
 
 // VerifH_C15_Defaults: omitted / out-of-range options get the documented defaults, valid ones are kept.
@@ -144,5 +145,54 @@ func VerifH_C15_GcKeepsActiveBuckets() {
 	if t3.Sub(t1) < entryTtl {
 		verifrt.Reach("active")
 		verifrt.Assert(ok2 && after == before, "a bucket used less than the idle TTL ago survives collection (same bucket, same tokens)")
+	}
+}
+
+type vBucketCall struct {
+	l   *rate.Limiter
+	now time.Time
+	n   int
+}
+
+// VerifH_C15_Delegation: the client limiter IS one x/time/rate token bucket per subnet, nothing more: every bucket is
+// created with exactly the configured rate and burst, a request is charged to the bucket of its own subnet only
+// (same subnet ⇒ same bucket object, different subnet ⇒ a different one), with the caller's instant and cost
+// unchanged, and the bucket's verdict is returned as is. Together with the documented contract of rate.Limiter
+// (admitted cost over any window ≤ burst + rate × window) this is the per-subnet bound and the isolation.
+func VerifH_C15_Delegation() {
+	var made []*rate.Limiter
+	var calls []vBucketCall
+	verifrt.Redirect("golang.org/x/time/rate.NewLimiter", func(r rate.Limit, b int) *rate.Limiter {
+		verifrt.Assert(r == 5 && b == 7, "buckets are created with the configured rate and burst")
+		l := new(rate.Limiter)
+		made = append(made, l)
+		return l
+	})
+	verdicts := []bool{verifrt.Bool("v0"), verifrt.Bool("v1"), verifrt.Bool("v2")}
+	verifrt.Redirect("(*golang.org/x/time/rate.Limiter).AllowN", func(l *rate.Limiter, now time.Time, n int) bool {
+		calls = append(calls, vBucketCall{l, now, n})
+		return verdicts[len(calls)-1]
+	})
+	o := ClientLimiterOpts{Limit: 5, Burst: 7, V4Mask: verifrt.IntRange("v4mask", 1, 32), V6Mask: 48}
+	cl := &ClientLimiter{opts: o, m: xsync.NewMapOf[netip.Addr, *e]()}
+	a, ua := vAddr4("a")
+	b, ub := vAddr4("b")
+	t := []time.Time{time.Now(), time.Now(), time.Now()}
+	n := []int{verifrt.IntRange("n0", 1, 100), verifrt.IntRange("n1", 1, 100), verifrt.IntRange("n2", 1, 100)}
+	got := []bool{cl.AllowN(a, t[0], n[0]), cl.AllowN(b, t[1], n[1]), cl.AllowN(a, t[2], n[2])}
+	verifrt.Reach("charged")
+	verifrt.Assert(len(calls) == 3, "every request consults exactly one bucket")
+	for i := range calls {
+		verifrt.Assert(calls[i].now == t[i] && calls[i].n == n[i], "instant and cost are passed through unchanged")
+		verifrt.Assert(got[i] == verdicts[i], "the bucket's verdict is the answer")
+	}
+	verifrt.Assert(calls[0].l == calls[2].l, "the same client is charged to the same bucket every time")
+	shift := uint(32 - o.V4Mask)
+	same := ua>>shift == ub>>shift
+	verifrt.Assert((calls[1].l == calls[0].l) == same, "another client shares the bucket exactly when it is in the same subnet")
+	if same {
+		verifrt.Assert(len(made) == 1, "one bucket per subnet")
+	} else {
+		verifrt.Assert(len(made) == 2, "one bucket per subnet")
 	}
 }
